@@ -151,3 +151,9 @@ Theorem C15_single_subst_address : forall s a p i c,
   \/ (lowerc c = lowerc (nth i s 0) /\ from_text (subst i c s) = Ok a).
 Proof. exact from_text_single_subst. Qed.
 Print Assumptions C15_single_subst_address.
+
+(* harness soundness: the correspondence run skips re-decoding substituted strings whose model result is fixed by
+   C15_single_subst_address; that accelerated comparison equals the plain one (every string decoded by the model) *)
+Theorem C15_corr_accelerated_sound : forall same k, corr_with same k = corr_plain same k.
+Proof. exact corr_with_plain. Qed.
+Print Assumptions C15_corr_accelerated_sound.
